@@ -109,6 +109,10 @@ def cases(ctx):
             yield gen_case(ctx, i)
 
 
+class StreamMismatch(Exception):
+    pass
+
+
 def real_pafs(variant, inst32, H, W, s, sigma, edges):
     """Return the real output as (E, 2, gh, gw) float64 plus the raw shape."""
     import torch
@@ -120,8 +124,19 @@ def real_pafs(variant, inst32, H, W, s, sigma, edges):
     if variant.startswith("fn"):
         out = em.generate_pafs(t, (H, W), sigma=sigma, output_stride=s, edge_inds=e, flatten_channels=flat)
     else:
+        # one pipe object is fed a stream [warm-up of another image size, example]: state kept from the first item would show in the second
         ex = {"image": torch.zeros((1, 1, H, W)), "instances": t}
-        out = list(em.PartAffinityFieldsGenerator([ex], sigma=sigma, output_stride=s, edge_inds=e, flatten_channels=flat))[0]["part_affinity_fields"]
+        H2, W2 = H + s * 2, max(2 * s, W - s)
+        tw = t + 1.5 * s
+        warm = {"image": torch.zeros((1, 1, H2, W2)), "instances": tw.clone()}
+        res = list(em.PartAffinityFieldsGenerator([warm, ex], sigma=sigma, output_stride=s, edge_inds=e, flatten_channels=flat))
+        if len(res) != 2:
+            raise StreamMismatch(f"a stream of 2 examples yielded {len(res)}")
+        w_fn = em.generate_pafs(tw.clone(), (H2, W2), sigma=sigma, output_stride=s, edge_inds=e, flatten_channels=flat)
+        w_dp = res[0]["part_affinity_fields"]
+        if tuple(w_dp.shape) != tuple(w_fn.shape) or not torch.allclose(w_dp, w_fn, atol=1e-6, equal_nan=True):
+            raise StreamMismatch(f"first stream item ({H2}x{W2}) differs from the functional call on the same input: {tuple(w_dp.shape)} vs {tuple(w_fn.shape)}")
+        out = res[1]["part_affinity_fields"]
     raw = tuple(out.shape)
     arr = out.detach().numpy().astype(np.float64)
     return arr, raw, flat
@@ -139,7 +154,12 @@ def check(ctx, case):
     n_an = len(p64)
     small = {k: case[k] for k in ("i", "variant", "H", "W", "stride", "sigma", "n_nodes", "edges", "nan_class", "places")}
     small["points"] = pts
-    full, raw, flat = real_pafs(variant, p32, H, W, s, sigma, edges)
+    try:
+        full, raw, flat = real_pafs(variant, p32, H, W, s, sigma, edges)
+    except StreamMismatch as e:
+        ctx.violation("stream", f"{variant}: {e}", small)
+        ctx.tick()
+        return
     ctx.count("real_calls:" + variant)
     want = (2 * E, gh, gw) if flat else (E, 2, gh, gw)
     if raw != want:
